@@ -232,6 +232,40 @@ def masks():
         return True
     one("rsome.lp:DecRule.adapt", "all pairs of (rows, cols) declarations on a 3x3 mask", ro_masks)
 
+    def ro_late_rvar():
+        """a random variable declared AFTER (part of) the adaptation of a rule and before the rule's first use must not change
+        what the rule depends on: the rule's coefficient columns sit exactly on the declared (entry, random component) pairs"""
+        want = np.array([[0, 1, 0], [1, 0, 0]])
+        for when in ("before", "between-the-two-adapts", "between-adapt-and-first-use", "after-first-use"):
+            m = ro.Model()
+            z1 = m.rvar(2)
+            if when == "before":
+                m.rvar()
+            y = m.ldr(2)
+            y[0].adapt(z1[1])
+            if when == "between-the-two-adapts":
+                m.rvar()
+            y[1].adapt(z1[0])
+            if when == "between-adapt-and-first-use":
+                m.rvar()
+            aff = y.to_affine()
+            if when == "after-first-use":
+                m.rvar()
+            nr = aff.raffine.shape[1]
+            R = views.dense(aff.raffine.linear)
+            got = np.zeros((2, 3), dtype=int)
+            for i in range(2):
+                for j in range(nr):
+                    if any(not (isinstance(v, float) and v == 0) for v in R[i * nr + j]):
+                        got[i, j] = 1
+            if not np.array_equal(got, want):
+                return f"random variable declared {when}: the rule depends on {got.tolist()}, declared {want.tolist()}"
+            cols = [k for i in range(2) for j in range(nr) for k in range(R.shape[1]) if not (isinstance(R[i * nr + j][k], float) and R[i * nr + j][k] == 0)]
+            if len(cols) != 2 or len(set(cols)) != 2:
+                return f"random variable declared {when}: coefficient columns {cols}"
+        return True
+    one("rsome.lp:DecRule.to_affine", "a random variable declared before / between / after the adaptations of a rule", ro_late_rvar, "rule-depends-exactly-on-the-declared-pairs")
+
     def illegal():
         m = dro.Model(2)
         z = m.rvar(2)
